@@ -12,8 +12,12 @@ Local Open Scope Z_scope.
 Inductive node :=
 | Node (mws : list (Z * bool)) (redirs : list (bytes * bytes)) (subs : list (bytes * node)) (pk pid : Z).
 
-(* oracle answer for indexIn(path) != -1: the path after mid(matchedLength()), captured texts *)
-Definition rxo := bytes -> bytes -> option (bytes * list bytes).
+(* oracle answer for pattern.indexIn(path): no match, or a match with the path after
+   mid(matchedLength()) and the captured texts; RxUnknown = the case carries no answer *)
+Inductive rxr := RxNo | RxYes (rest : bytes) (caps : list bytes) | RxUnknown.
+Definition rxo := bytes -> bytes -> rxr.
+
+Definition no_oracle : list aop := [ANote (VI (-2))].
 
 (* ---- QString::arg -------------------------------------------------------------- *)
 Inductive seg := Lit (c : byte) | Mark (n : Z) (orig : bytes).
@@ -92,13 +96,15 @@ Definition LOC_KEEP : bytes := B "/:?#[]@!$&'()*+,;=%".
 
 (* ---- Handler::route ------------------------------------------------------------ *)
 
-Fixpoint first_redirect (rx : rxo) (redirs : list (bytes * bytes)) (path : bytes) : option bytes :=
+(* first matching redirect: Some (Some loc) | no redirect matches: Some None | oracle missing: None *)
+Fixpoint first_redirect (rx : rxo) (redirs : list (bytes * bytes)) (path : bytes) : option (option bytes) :=
   match redirs with
-  | [] => None
+  | [] => Some None
   | (pat, tmpl) :: r =>
       match rx pat path with
-      | Some (_, caps) => Some (to_pct LOC_KEEP (fold_left qarg caps tmpl))
-      | None => first_redirect rx r path
+      | RxYes _ caps => Some (Some (to_pct LOC_KEEP (fold_left qarg caps tmpl)))
+      | RxNo => first_redirect rx r path
+      | RxUnknown => None
       end
   end.
 
@@ -109,33 +115,42 @@ Definition process_aops (pk pid : Z) (path : bytes) : list aop :=
   else if pk =? 2 then [ANote (VL [VI 31; VI pid; VB path])]
   else [ANote (VL [VI 31; VI pid; VB path]); AWriteError 500 None].
 
+(* the first sub-handler whose pattern matches: what [f] makes of (sub-handler, remaining path) *)
+Definition first_sub_gen {X : Type} (rx : rxo) (path : bytes) (f : node -> bytes -> X) (unknown : X)
+  : list (bytes * node) -> option X :=
+  fix go (l : list (bytes * node)) : option X :=
+    match l with
+    | [] => None
+    | (pat, child) :: l' =>
+        match rx pat path with
+        | RxYes rest _ => Some (f child rest)
+        | RxNo => go l'
+        | RxUnknown => Some unknown
+        end
+    end.
+
+(* the middleware chain of one handler, followed by [after] when none refuses *)
+Definition chain (after : list aop) : list (Z * bool) -> list aop :=
+  fix go (m : list (Z * bool)) : list aop :=
+    match m with
+    | [] => after
+    | (id, acc) :: m' =>
+        ANote (VL [VI 30; VI id]) ::
+        (if acc then go m' else [AWriteError 403 None])   (* the refusing middleware answers *)
+    end.
+
 Fixpoint route (rx : rxo) (n : node) (path : bytes) {struct n} : list aop :=
   match n with
   | Node mws redirs subs pk pid =>
-      let fix first_sub (l : list (bytes * node)) : option (list aop) :=
-        match l with
-        | [] => None
-        | (pat, child) :: l' =>
-            match rx pat path with
-            | Some (rest, _) => Some (route rx child rest)
-            | None => first_sub l'
-            end
-        end in
-      let after :=
-        match first_redirect rx redirs path with
-        | Some loc => [AWriteRedirect loc false]
-        | None =>
-            match first_sub subs with
-            | Some l => l
-            | None => process_aops pk pid path
-            end
-        end in
-      (fix chain (m : list (Z * bool)) : list aop :=
-         match m with
-         | [] => after
-         | (id, acc) :: m' =>
-             ANote (VL [VI 30; VI id]) ::
-             (if acc then chain m' else [AWriteError 403 None])   (* the refusing middleware answers *)
+      chain
+        (match first_redirect rx redirs path with
+         | Some (Some loc) => [AWriteRedirect loc false]
+         | Some None =>
+             match first_sub_gen rx path (route rx) no_oracle subs with
+             | Some l => l
+             | None => process_aops pk pid path
+             end
+         | None => no_oracle
          end) mws
   end.
 
